@@ -235,6 +235,15 @@ func runC10(c *run.Ctx) {
 					offender = d.Name
 					if defect == "directive-undeclared-arg" {
 						d.Args = []model.Arg{{Name: "if", Value: d.Name == "include"}, {Name: "zz_undeclared", Value: int64(1)}}
+						if (p+i)%3 == 0 {
+							// the value of the undeclared argument comes from a variable
+							d.Args[1].Value = model.VarRef("zzDirVar")
+							for _, op := range ec.DC.Doc.Ops {
+								op.Vars = append(op.Vars, &model.VarDef{Name: "zzDirVar", Type: model.Named("Int"), HasDefault: true, Default: int64(1)})
+								op.Shorthand = false
+							}
+							c.Bucket("defect_detail", "undeclared-directive-argument-given-by-a-variable")
+						}
 						offender = "zz_undeclared"
 					}
 					switch t := sel.(type) {
